@@ -22,6 +22,14 @@ def replay(ctx, spec, res, path):
     spec["explore"](ctx, res, replay_ops=ops)
 
 
+def _gen_late(which, fname):
+    """gen_table is defined further down; resolve it at call time (same key, so setup.sh regenerates once)"""
+    def g(ctx):
+        return gen_table(which, fname)(ctx)
+    g.key = which
+    return g
+
+
 def n_for(ctx, quick, thorough):
     return quick if ctx.tier == "quick" else thorough
 
@@ -57,15 +65,25 @@ def _cdrfile_common(ctx, res, replay_ops, want_spec):
                               "or has another length than the format prescribes" % ("C15" if want_spec else "C14", t[2], t[3]),
                               [op, "# impl:  " + im[:300], "# model: " + mo[:300]])
             continue
-        if kind != "rt":
+        if kind not in ("rt", "over", "rewrite"):
             # outside the property's domain (non-well-formed structures, damaged files):
             # model fidelity is reported, it does not decide the property
             agree = (im == mo) or (kind == "dec" and mo == "panic")
             res.outside_domain[kind + (":agree" if agree else ":differ")] += 1
             continue
         res.evaluations += 1
-        res.dist["rt"] += 1
-        ftoks = t[2:]
+        res.dist[kind] += 1
+        # the structure written last; `over`: the destination held other content before, `rewrite`: another file
+        # written by the same code
+        if kind == "rt":
+            ftoks = t[2:]
+        elif kind == "over":
+            ftoks = t[5:]
+            res.dist["destination:" + ("absent" if t[3] == "-" else "exists")] += 1
+        else:
+            ftoks = t[t.index("|") + 1:]
+        if kind != "rt":
+            res.nontrivial.add(op)
         nrec = int(ftoks[31])
         res.dist["records=%d" % min(nrec, 3)] += 1
         res.dist["high7" if ftoks[2] == "7" else "high<7"] += 1
@@ -93,17 +111,23 @@ def _cdrfile_common(ctx, res, replay_ops, want_spec):
         out = core.driver_run(spec_q)
         for i, o in zip(spec_idx, out):
             res.traces_validated += 1
-            ftoks = r.ops[i].split()[2:]
+            tt = r.ops[i].split()
+            ftoks = tt[2:] if tt[1] == "rt" else tt[5:] if tt[1] == "over" else tt[tt.index("|") + 1:]
             ot = o.split()
             if not (ot and ot[0] == "ok" and ot[1:] == ftoks):
+                how = {"rt": "", "over": " (the destination file existed before with other content)",
+                       "rewrite": " (the destination had been written by Encoding before, with another file)"}[tt[1]]
                 res.violation("layout", "independent TS 32.297 reader does not recover the structure from the "
-                              "bytes written by Encoding", [r.ops[i], "# impl bytes: " + spec_q[spec_idx.index(i)][:2000],
+                              "bytes written by Encoding" + how, [r.ops[i], "# impl bytes: " + spec_q[spec_idx.index(i)][:2000],
                                                             "# spec reader: " + o[:2000]])
     res.exhaustive = False
     res.extra["exhaustive_subspace"] = "all 64 (high,low) release-identifier pairs, each with extension octets iff 7"
     res.rule = ("well-formed CDRFile structures generated from the Go types (all 64 identifier pairs first, then "
                 "seeded random: field values at 0/max/random within TS 32.297 widths, filter/extension lengths "
-                "0,1,255..257,<40 (thorough: 65485..65535), 0-5 records); an input is non-trivial when it has "
+                "0,1,255..257,<40 (thorough: 65485..65535), 0-5 records); destinations that already exist: 48 files written over "
+                "other content (absent, 0, 1, len-1, len, len+1, len+54, 2len+100, len+4096, random, 70000 octets; permission bits "
+                "600/644/660/666) and 24 pairs of files written one after the other to the same path (longer first / shorter first), "
+                "the whole file on disk is read back (thorough: 400 + 200); an input is non-trivial when it has "
                 "records, an extension octet or a routeing filter; distinct = distinct operation lines")
 
 
@@ -115,10 +139,12 @@ def explore_c15(ctx, res, replay_ops=None):
     _cdrfile_common(ctx, res, replay_ops, want_spec=True)
 
 
-PROPS["C14"] = dict(lean=["ChfVerif.Props.C14"], explore=explore_c14,
-                    trusted=["os.WriteFile/os.ReadFile, encoding/binary (modelled)"])
-PROPS["C15"] = dict(lean=["ChfVerif.Props.C15"], explore=explore_c15,
-                    trusted=["Spec/TS32297.lean is my transcription of TS 32.297 clause 6.1 as restated in C15",
+PROPS["C14"] = dict(lean=["ChfVerif.Props.C14"], explore=explore_c14, gen=[_gen_late("cdrfile", "CdrFileFacts.lean")],
+                    trusted=["os.WriteFile/os.ReadFile, encoding/binary (modelled; how the destination is opened is regenerated by go/ast: "
+                             "harness/cmd/cdrfilefacts.go)"])
+PROPS["C15"] = dict(lean=["ChfVerif.Props.C15"], explore=explore_c15, gen=[_gen_late("cdrfile", "CdrFileFacts.lean")],
+                    trusted=["the file system is modelled (Model/CdrFile.lean writeOver); how Encoding opens its destination is regenerated "
+                             "by go/ast (harness/cmd/cdrfilefacts.go)","Spec/TS32297.lean is my transcription of TS 32.297 clause 6.1 as restated in C15",
                              "os.WriteFile, encoding/binary (modelled)"])
 
 
